@@ -68,13 +68,18 @@ def fresh_message_obligations(ctx: Any, R: str) -> List[Ob]:
     # (z) the "recently multicast" decisions compare the record's age with the time THIS datagram arrived: the message that
     # is dispatched is decoded in this call from this datagram's bytes and stamped with this arrival time (a reused,
     # earlier-decoded message would carry the arrival time of the first copy and every record would look recent for ever)
-    pd = prog.func('zeroconf._listener.AsyncListener._process_datagram_at_time')
+    from .c16 import dispatching_function
+
+    pd = dispatching_function(ctx)
     disp = [c for c in walk_local_ordered(pd.node) if isinstance(c, ast.Call) and call_name(c) in ('handle_query_or_defer', 'async_updates_from_response')]
-    if not disp:
-        raise AnalysisError('anchor vanished: dispatch calls of the datagram processor')
     from .common import local_defs as _ld
 
-    p_now, p_data = pd.params[3], pd.params[4]
+    # the datagram's bytes and its arrival time are the parameters of the dispatching method that its caller fills from the
+    # protocol callback (by name: the two that the decoder call uses)
+    dec = [c for c in walk_local_ordered(pd.node) if isinstance(c, ast.Call) and call_name(c) == 'DNSIncoming' and len(c.args) >= 4]
+    if not dec or not all(isinstance(dec[0].args[i], ast.Name) and dec[0].args[i].id in pd.params for i in (0, 3)):
+        return [ob(R, pd, dec[0] if dec else 'DNSIncoming(data, addr_port, scope, now)', 'the message handed on is decoded from this datagram and carries this datagram\'s arrival time', False, 'the dispatching method does not decode its own `data` / `now` parameters')]
+    p_data, p_now = dec[0].args[0].id, dec[0].args[3].id
     for c in disp:
         marg = next((a for a in c.args if isinstance(a, ast.Name) and a.id not in pd.params), None)
         defs = [v for v in _ld(pd).get(marg.id, [])] if marg is not None else []
@@ -200,8 +205,11 @@ def route(ctx: Any) -> List[Ob]:
             pass
     obs.append(ob(R, s, 'ucast_source = port != _MDNS_PORT', 'a query is a legacy-unicast query iff its source port is not 5353', ok_us))
     # parameter pass-through from the protocol to the handler
-    pd = prog.func('zeroconf._listener.AsyncListener._process_datagram_at_time')
-    unpack = [st for st in walk_local_ordered(pd.node) if isinstance(st, ast.Assign) and isinstance(st.targets[0], ast.Tuple) and norm(st.value) == pd.params[5]]
+    from .c16 import dispatching_function
+
+    pd = dispatching_function(ctx)
+    # the source-address parameter: the one that is unpacked into address and port
+    unpack = [st for st in walk_local_ordered(pd.node) if isinstance(st, ast.Assign) and isinstance(st.targets[0], ast.Tuple) and isinstance(st.value, ast.Name) and st.value.id in pd.params]
     firsts = {tuple(norm(e) for e in st.targets[0].elts[:2]) for st in unpack}
     ok_un = len(unpack) == 2 and len(firsts) == 1 and {len(st.targets[0].elts) for st in unpack} == {2, 4}
     obs.append(ob(R, pd, 'addr, port = addrs / addr, port, flow, scope = addrs', 'address and port are the first two components of the source address of the datagram (both address shapes)', ok_un))
